@@ -165,7 +165,7 @@ func (r *DocumentHandler) ResolveDocument(longFormDID string,
 }
 
 func (r *DocumentHandler) getNamespace(shortOrLongFormDID string) (string, error) {
-	if strings.HasPrefix(shortOrLongFormDID, r.namespace) {
+	if strings.HasPrefix(shortOrLongFormDID, r.namespace+docutil.NamespaceDelimiter) {
 		return r.namespace, nil
 	}
 
